@@ -42,7 +42,7 @@ func init() {
 			{Name: "network (bucket), file IO, clock", Kind: "stub", Note: "SimNet, in-memory IO, simulated time"},
 			{Name: "reference verifier", Kind: "stub", Note: "refv"},
 		},
-		Budget: core.StdBudget(2500, 100*time.Second, 400000, 25*time.Minute),
+		Budget: core.StdBudget(2500, 100*time.Second, 400000, 9*time.Minute),
 		Body:   runC01,
 	})
 }
